@@ -453,6 +453,12 @@ def gen_seq_list(rng):
         if i == carrier or rng.random() < 0.2:
             spec["tsigs"] = [list(x) for x in tsigs]
             spec["keys"] = [list(x) for x in keys]
+        # events that write no MIDI message (program change) or a channel message (control change) between timed events
+        ch = spec["notes"][0][0] if spec["notes"] else 0
+        for _ in range(rng.choice([0, 0, 1, 2])):
+            spec["progs"].append([rng.randrange(0, horizon + 1), ch, rng.randrange(0, 128)])
+        for _ in range(rng.choice([0, 0, 0, 1])):
+            spec["ccs"].append([rng.randrange(0, horizon + 1), ch, rng.randrange(0, 120), rng.randrange(0, 128)])
         out.append({"spec": spec, "mode": rng.choice(["abs", "rel", "both"])})
     return out
 
@@ -1024,6 +1030,8 @@ class C13Engine(_DiskEngine):
         "signature events sit >= 2 library ticks apart, never on an exact rounding tie, never two on one tick",
         "on an exact tie either neighbouring tick is accepted for notes ('nearest', 'error at most half a tick')",
         "only successful returns are judged under non-maskable read faults",
+        "track groups are disjoint (a grouping is a partition of a subset of the tracks, possibly in non-ascending order); a track "
+        "listed in two groups is outside the domain explored (the loader gives it to the first group only)",
     ]
 
     @staticmethod
